@@ -230,7 +230,12 @@ func (e *Exec) feasible(extra ...*Term) Verdict {
 	lits := make([]*Term, 0, len(e.pc)+len(extra))
 	lits = append(lits, e.pc...)
 	lits = append(lits, extra...)
+	// a feasibility question left unanswered is resolved by keeping the branch (sound): no need for the
+	// longer second and third attempts that an assertion gets
+	saved := e.solver.noRetry
+	e.solver.noRetry = true
 	v := e.solver.Check(lits)
+	e.solver.noRetry = saved
 	if v == Unknown {
 		e.unknowns++
 	}
